@@ -18,6 +18,8 @@ theorem inv_execute {c : Cfg} (httl : 0 < c.ttl) {s : St} (h : Inv c s) (o : Out
   · exact wf3_save httl _ _
   · cases x <;> exact h
   · exact h
+  · exact h
+  · exact h
 
 theorem inv_step {c : Cfg} (httl : 0 < c.ttl) (s : St) (op : DOp) (h : Inv c s) : Inv c (step c s op).1 := by
   cases op with
@@ -40,6 +42,8 @@ theorem call_exec {c : Cfg} {s : St} (h : Inv c s) (o : Outcome)
     intro x; unfold execute; cases o
     · rfl
     · cases x <;> rfl
+    · rfl
+    · rfl
     · rfl
   unfold call
   split
@@ -77,18 +81,23 @@ theorem call_stored {c : Cfg} {s : St} (h : Inv c s) (o : Outcome) {st id : Nat}
         subst h1 h2
         refine ⟨hs.2.1, hs.2.2.1, Or.inr ⟨by rw [hs.1] at hn; omega, by simp, by simp⟩⟩
       · simp at hr
+      · simp at hr
+      · simp at hr
   · rename_i hc
     unfold execute at hr
     cases o <;> simp at hr
 
 /-- a fresh result is the product of an execution made by this call, stamped now -/
 theorem call_fresh {c : Cfg} {s : St} (o : Outcome) {st id : Nat}
-    (hr : (call c s o).2.res = .fresh st id) : st = s.t.now ∧ o = .ok ∧ (call c s o).2.exec = true := by
+    (hr : (call c s o).2.res = .fresh st id) :
+    st = s.t.now ∧ (o = .ok ∨ o = .rejected) ∧ (call c s o).2.exec = true := by
   have hex : ∀ x, (execute c s o x).2.res = .fresh st id →
-      st = s.t.now ∧ o = .ok ∧ (execute c s o x).2.exec = true := by
+      st = s.t.now ∧ (o = .ok ∨ o = .rejected) ∧ (execute c s o x).2.exec = true := by
     intro x hx; unfold execute at hx ⊢; cases o
-    · simp at hx; exact ⟨hx.1.symm, rfl, rfl⟩
+    · simp at hx; exact ⟨hx.1.symm, Or.inl rfl, rfl⟩
     · cases x <;> simp at hx
+    · simp at hx
+    · simp at hx; exact ⟨hx.1.symm, Or.inr rfl, rfl⟩
     · simp at hx
   unfold call at hr ⊢
   split at hr
@@ -99,6 +108,43 @@ theorem call_fresh {c : Cfg} {s : St} (o : Outcome) {st id : Nat}
       exact hex _ hr
   · rename_i hc
     exact hex _ hr
+
+/-- what a call that executes hands out, by outcome of the execution: a successful execution is answered with its
+own result — or with the exception of its store step — and only `ok` changes the store -/
+theorem execute_spec (c : Cfg) (s : St) (o : Outcome) (x : Option (Nat × Nat × Nat)) :
+    ((o = .ok ∨ o = .rejected) → (execute c s o x).2.res = .fresh s.t.now s.nexec) ∧
+    (∀ st l, o = .storeFails st l → (execute c s o x).2.res = .storeErr l) ∧
+    (o ≠ .ok → (execute c s o x).1.t = s.t) := by
+  unfold execute
+  cases o
+  · simp
+  · cases x <;> simp
+  · simp
+  · simp
+  · simp
+
+theorem execute_exec (c : Cfg) (s : St) (o : Outcome) (x : Option (Nat × Nat × Nat)) :
+    (execute c s o x).2.exec = true := by
+  unfold execute; cases o
+  · rfl
+  · cases x <;> rfl
+  · rfl
+  · rfl
+  · rfl
+
+/-- a call that executes is a call of `execute`; one that does not leaves the state alone -/
+theorem call_cases (c : Cfg) (s : St) (o : Outcome) :
+    ((call c s o).2.exec = true ∧ ∃ x, call c s o = execute c s o x) ∨
+    ((call c s o).2.exec = false ∧ (call c s o).1 = s) := by
+  unfold call
+  cases hc : cached3 s.t with
+  | none => exact Or.inl ⟨execute_exec _ _ _ _, _, rfl⟩
+  | some p =>
+    obtain ⟨st, id, x⟩ := p
+    simp only []
+    by_cases hn : s.t.now < x
+    · simp only [hn, if_true]; exact Or.inr (by simp)
+    · simp only [hn, if_false]; exact Or.inl ⟨execute_exec _ _ _ _, _, rfl⟩
 
 end Soft
 
@@ -117,6 +163,8 @@ theorem inv_step {c : Cfg} (httl : 0 < c.ttl) (s : St) (op : DOp) (h : Inv c s) 
     · exact wf2_save httl _ _
     · simp only []; split <;> exact h
     · exact h
+    · exact h
+    · exact h
   | adv dt => exact wf2_advance h dt
   | done i o => exact h
 
@@ -125,6 +173,8 @@ theorem call_exec (c : Cfg) (s : St) (o : Outcome) : (call c s o).2.exec = true 
   cases o
   · exact ⟨rfl, rfl⟩
   · simp only []; split <;> exact ⟨rfl, rfl⟩
+  · exact ⟨rfl, rfl⟩
+  · exact ⟨rfl, rfl⟩
   · exact ⟨rfl, rfl⟩
 
 /-- a stored result is handed out only when the execution raised a listed exception, and it is younger than ttl -/
@@ -144,6 +194,22 @@ theorem call_stored {c : Cfg} {s : St} (h : Inv c s) (o : Outcome) {st id : Nat}
       exact ⟨rfl, hs.1, hs.2.1⟩
     · simp at hr
   · simp at hr
+  · simp at hr
+  · simp at hr
+
+/-- a successful execution is answered with its own result — or with the exception of its store step — and only
+`ok` changes the store -/
+theorem call_spec (c : Cfg) (s : St) (o : Outcome) :
+    ((o = .ok ∨ o = .rejected) → (call c s o).2.res = .fresh s.t.now s.nexec) ∧
+    (∀ st l, o = .storeFails st l → (call c s o).2.res = .storeErr l) ∧
+    (o ≠ .ok → (call c s o).1.t = s.t) := by
+  unfold call
+  cases o
+  · simp
+  · simp only []; split <;> simp
+  · simp
+  · simp
+  · simp
 
 /-- conversely: listed exception and a stored result younger than ttl → that result is the answer -/
 theorem call_listed {c : Cfg} {s : St} {st id : Nat} (hc : cached2 s.t = some (st, id)) :
